@@ -68,6 +68,10 @@ type SvcCase struct {
 	MidStop  []int       `json:"mid_stop"` // per epoch: <0 clean shutdown at quiescence, else earliest step for Shutdown
 	Optional []string    `json:"optional"` // enabled optional yield points; ["*"] = all
 	Gate     bool        `json:"gate"`     // hold actors until the service announced itself
+	// HoldWorkers: the workers are not scheduled until the actor "burst" has
+	// submitted this many callbacks (a backlog that deep never builds up
+	// by chance)
+	HoldWorkers int `json:"hold_workers,omitempty"`
 	// OverlapServe: a stopped service is served again by another goroutine
 	// as soon as Shutdown returned, whether or not the previous Serve call
 	// has returned yet
